@@ -179,6 +179,20 @@ def phiEvent (I : Inst) (best : Cache) (e : List String) : Nat × Option String 
           else some s!"dominance: `{showSt a}` (value {va}, reaches {showE ta}) against `{showSt b}` (value {vb}, reaches {showE tb}) is `{showOrd o}`: the rule is not admissible")
       | _, _ => (0, none)
     | _, _, _, _, _ => (0, none)
+  | ["arr" :: info, [a, r], [t]] =>
+    -- a runway whose previous class is unknown (merged) must let the aircraft land no later than the same runway with any
+    -- known previous class would: the answer THE CODE gave against the separations of the instance
+    match (ints? info).bind rws?, nat? a, nat? r, int? t with
+    | some info, some a, some r, some t =>
+      match info[r]? with
+      | some (tm, -1) =>
+        if tm = 0 ∨ a ≥ I.nbAircraft then (0, none) else
+        let late := (List.range I.nbClasses).filter (fun c => decide (max (I.tgt a) (tm + I.sepAt c (I.cls a)) < t))
+        (5, match late.head? with
+            | none => none
+            | some c => some s!"aircraft {a} after an UNKNOWN class on a runway free at {tm} lands at {t}, later than after class {c} ({max (I.tgt a) (tm + I.sepAt c (I.cls a))}): the merged runway does not over-approximate")
+      | _ => (0, none)
+    | _, _, _, _ => (0, none)
   | ["pv" :: s, [v], decs] =>
     match st? I s, int? v, ints? decs with
     | some s, some v, some decs =>
@@ -225,7 +239,7 @@ def alpCase (toks : List String) (i : List String) : Option Res := do
       let best : AlpX.Cache := small.map (fun s => (s, AlpModel.best I s))
       let mut bad : List String := []
       let mut viol : List String := []
-      let mut checked : List Nat := [0, 0, 0, 0, 0]
+      let mut checked : List Nat := [0, 0, 0, 0, 0, 0]
       for e in evs do
         match AlpX.checkEvent I e with
         | none => bad := bad ++ [s!"unreadable event `{join e}`"]
@@ -238,7 +252,7 @@ def alpCase (toks : List String) (i : List String) : Option Res := do
         | some v => viol := viol ++ [v]
       let phi := viol.isEmpty || !inDom
       pure { agree := bad.isEmpty, phi := phi,
-             model := s!"root {match best.get (AlpModel.initState I) with | some b => AlpX.showE b | none => "?"} events {evs.length} states {sts.length} enumerated {small.length} checks rub {checked.getD 1 0} rx {checked.getD 2 0} dm {checked.getD 3 0} pv {checked.getD 4 0}{if inDom then "" else " out-of-domain"}{if !inDom && !viol.isEmpty then " (" ++ toString viol.length ++ " pointwise violations, ignored)" else ""}",
+             model := s!"root {match best.get (AlpModel.initState I) with | some b => AlpX.showE b | none => "?"} events {evs.length} states {sts.length} enumerated {small.length} checks rub {checked.getD 1 0} rx {checked.getD 2 0} dm {checked.getD 3 0} pv {checked.getD 4 0} arr {checked.getD 5 0}{if inDom then "" else " out-of-domain"}{if !inDom && !viol.isEmpty then " (" ++ toString viol.length ++ " pointwise violations, ignored)" else ""}",
              note := (if phi then "" else s!"F:C16 [C16:alp: {viol.head?.getD ""}]")
                      ++ (if bad.isEmpty then "" else " D:exmodel " ++ (bad.head?.getD "")) }
     | _ => none
